@@ -229,6 +229,7 @@ class Contract:
         self.returns = d.get('returns')              # T for the result when applied at call sites
         self.assumed = d.get('assumed', False)       # contract is not verified (external / out of reach)
         self.bounds = d.get('bounds', {})
+        self.native_only = d.get('native_only', False)   # no VCs: only native contract evaluation (bounded stand-in)
         self.bounded = d.get('bounded')              # text: the contract only covers a stated bounded shape (stand-in, not a proof)
         self.doc = (spec_cls.__doc__ or '').strip()
         self.ghost = d.get('ghost', {})
